@@ -44,8 +44,10 @@ def sched_parts(pid: str, tier: str):
     parts = []
 
     def mk(name, cfg, require, budget, split=7):
+        from harness.sched import canonical, replay_real
+
         parts.append(Part(name, P(run_sched, cfg), dataclass_bounds(cfg), budget_s=budget, split_depth=split,
-                          require=require, functions=SCHED_FUNCS))
+                          require=require, functions=SCHED_FUNCS, real_replay=P(replay_real, cfg), canonical=canonical))
 
     base_req = ["w_returned", "w_two_in_flight", "w_blocked_on_two", "w_parallel"]
     if pid == "C02":
